@@ -186,6 +186,11 @@ def _mutation_wrapper(
                 module.last_mutation = None
                 return
 
+            # Nested modules may have been re-created since this wrapper was bound (e.g.
+            # `EvolvableNetwork.recreate_encoder()`), so resolve their methods at call time
+            if "." in attribute:
+                return module.get_mutation_methods()[attribute](*args, **kwargs)
+
             return method(*args, **kwargs)
 
     return wrapped
